@@ -14,6 +14,7 @@ i_, j_ = Int('i'), Int('j')
 AU = z3.Function('ARPACK_U', IntS, IntS, RealS); AS = z3.Function('ARPACK_S', IntS, RealS); AV = z3.Function('ARPACK_Vt', IntS, IntS, RealS)
 RU = z3.Function('RAND_U', IntS, IntS, RealS); RS = z3.Function('RAND_S', IntS, RealS); RV = z3.Function('RAND_Vt', IntS, IntS, RealS)
 SGN = z3.Function('FLIPSIGN', IntS, RealS)
+FU = z3.Function('FULL_U', IntS, IntS, RealS); FS = z3.Function('FULL_S', IntS, RealS); FV = z3.Function('FULL_Vt', IntS, IntS, RealS)
 
 def getitem(I, b, ix, node=None):
     """full reversals a[::-1], a[:, ::-1]"""
@@ -70,6 +71,18 @@ def extend_ext(ext):
         npstubs.used('sklearn svd_flip (same sign for column i of U and row i of Vt)')
         Ua, Va = I.A(U), I.A(Vt)
         return (I.new_arr(ArrVal(Ua.shape, lambda a, b: SGN(tz(b)) * Ua.elem(a, b), RealS)), I.new_arr(ArrVal(Va.shape, lambda a, b: SGN(tz(a)) * Va.elem(a, b), RealS)))
+    def svd_full(I, mat, full_matrices=True, **kw):
+        npstubs.used('scipy.linalg.svd (thin, singular values descending)')
+        if full_matrices is not False: raise Unsupported("full svd")
+        n, m = I.A(mat).shape; r = conc(z3.simplify(If(tz(n) <= tz(m), tz(n), tz(m))))
+        I.cur['svd_args'] = dict(mat=mat)
+        return (I.new_arr(ArrVal((n, r), lambda a, b: FU(tz(a), tz(b)), RealS)), I.new_arr(ArrVal((r,), lambda a: FS(tz(a)), RealS)), I.new_arr(ArrVal((r, m), lambda a, b: FV(tz(a), tz(b)), RealS)))
+    sc = ext['modules'].get('scipy')
+    if sc is None:
+        sc = ExtNS('scipy', linalg=ExtNS('scipy.linalg'), sparse=ExtNS('scipy.sparse', linalg=ExtNS('scipy.sparse.linalg'))); ext['modules']['scipy'] = sc
+    sc.linalg.svd = svd_full
+    ext['names']['scipy.linalg'] = sc.linalg
+    ext['names']['scipy.linalg.svd'] = svd_full
     ext['names']['scipy.sparse.linalg.svds'] = svds
     ext['names']['sklearn.utils.extmath.randomized_svd'] = randomized_svd
     ext['names']['sklearn.utils.extmath.svd_flip'] = svd_flip
@@ -112,5 +125,24 @@ def u_truncated(owner, solver):
             I.ob('post[C03]:the-triplets-are-handed-back-unchanged', And(Sa.elem(i) == cut(RS(i), RS(i)), Ua.elem(a, i) == cut(RS(i), RU(a, i)), Va.elem(i, a) == cut(RS(i), RV(i, a))), kind='post')
     return Unit(f'{owner.split(".")[-1]}._decompose_truncated[{solver}]', body, functions=[q])
 
-UNITS = [lambda: u_truncated(PC, 'arpack'), lambda: u_truncated(PC, 'randomized')]
+def u_full(owner):
+    q = owner + '._decompose_full'
+    def body(I):
+        n, k = I.fresh('n', IntS), I.fresh('k', IntS)
+        I.assume(And(n >= 2, k >= 1, k <= n))
+        I.cur = {}
+        cls = I.repo.get(owner)
+        me = I.new_obj(cls, dict(n_components_=k, n_samples_in_=n, n_features_in_=n, svd_solver='full', fit_svd_solver_='full', _fit_svd_solver='full', tol=I.fresh('tol', RealS)))
+        mat = I.fresh_arr('mat', (n, n))
+        U, S, Vt = I.call_func(I.find_method(cls, '_decompose_full'), [me, mat], {})
+        Ua, Sa, Va = I.A(U), I.A(S), I.A(Vt)
+        a, i = I.fresh('a', IntS), I.fresh('i', IntS); I.assume(And(0 <= a, a < n, 0 <= i, i < k))
+        ar = I.cur.get('svd_args')
+        I.ob('post[C03]:the-matrix-handed-in-is-decomposed', BoolVal(ar is not None and ar['mat'].id == mat.id), kind='post')
+        I.ob('post[C03]:the-leading-k-components-are-returned', And(tz(Ua.shape[0]) == n, tz(Ua.shape[1]) == k, tz(Sa.shape[0]) == k, tz(Va.shape[0]) == k, tz(Va.shape[1]) == n), kind='post')
+        I.ob('post[C03]:each-singular-value-keeps-its-own-sign-fixed-vectors', And(Sa.elem(i) == FS(i), Ua.elem(a, i) == SGN(i) * FU(a, i), Va.elem(i, a) == SGN(i) * FV(i, a)), kind='post')
+        I.ob('post[C03]:the-number-of-components-is-unchanged-for-an-integer-request', tz(I.attr(me, 'n_components_')) == k, kind='post')
+    return Unit(f'{owner.split(".")[-1]}._decompose_full[integer k]', body, functions=[q])
+
+UNITS = [lambda: u_truncated(PC, 'arpack'), lambda: u_truncated(PC, 'randomized'), lambda: u_full(PC)]
 KUNITS = [lambda: u_truncated(KP, 'arpack'), lambda: u_truncated(KP, 'randomized')]      # KernelPCovR's variant additionally zeroes the components below tol
